@@ -32,27 +32,27 @@ theorem spec_step_inv (tbl : ClassTable) (hf : tbl.Faithful) (w : World) (ss : S
         cases ss.vars[a]? <;> exact hi
       | evalCur d v => exact hi
       | _ => simp [isEvalOp] at hev
-  | setAttr a c =>
+  | setAttr a k c =>
     simp only [Spec.step]
     cases ha : ss.vars[a]? with
     | none => exact hi
     | some n =>
       dsimp only
-      cases hg' : setAttrG ss.g n c with
+      cases hg'' : setAttrK ss.g n k c with
       | none => exact hi
       | some g' =>
-        have hsh := setAttrG_sameShape hg'
+        have hsh := setAttrG_sameShape (setAttrK_some hg'')
         exact ⟨fun z hz => hasRep_sameShape hsh (hi.repV z hz), hasRep_sameShape hsh hi.repC⟩
-  | editParam a c =>
+  | editParam a k c =>
     simp only [Spec.step]
     cases ha : ss.vars[a]? with
     | none => exact hi
     | some n =>
       dsimp only
-      cases hg' : editParamG ss.g n c with
+      cases hg'' : editParamK ss.g n k c with
       | none => exact hi
       | some g' =>
-        have hsh := editParamG_sameShape hg'
+        have hsh := editParamG_sameShape (editParamK_some hg'')
         exact ⟨fun z hz => hasRep_sameShape hsh (hi.repV z hz), hasRep_sameShape hsh hi.repC⟩
   | dataMut m d => exact ⟨hi.repV, hi.repC⟩
 
